@@ -188,6 +188,9 @@ UNSUPPORTED = {
     'true division': ['        self.r.prepare(self.b.get() / 2)'],
     'tuple assignment': ['        x, y = self.a.get(), self.b.get()', '        self.r.prepare(x + y)'],
     'two targets': ['        x = y = self.a.get()', '        self.r.prepare(x + y)'],
+    'two targets, the value read back from the first': ['        self.st = self.cnt = self.st + self.a.get()', '        self.r.prepare(self.cnt)'],
+    'three targets with a local in the middle': ['        self.cnt = t = self.st = self.cnt + self.b.get() + 1', '        self.r.prepare(t)'],
+    'two targets on a port and a state': ['        x = self.st = self.st ^ self.a.get()', '        self.r.prepare(x)', '        self.s.prepare(self.st & 1)'],
     'subscript': ['        t = [1, 2, 3]', '        self.r.prepare(t[self.c.get()])'],
     'call abs': ['        self.r.prepare(abs(self.a.get() - self.b.get()))'],
     'call min': ['        self.r.prepare(min(self.a.get(), self.b.get()))'],
